@@ -33,7 +33,7 @@ def gen_c01(r, tier, info):
     for n in lens:
         for w in (64, 128, 256):
             for _ in range(reps):
-                key = rkey(r)
+                key = gen.key_for(r, n)
                 data = rbytes(r, n)
                 b = B(f"c01-{n}-{w}", [f"len%32={n % 32}", f"pk={min(n // 32, 4)}", f"w{w}"])
                 i = b.op(f"hash portable {w} {kstr(key)} {hexbytes(data)}")
@@ -70,7 +70,7 @@ def gen_c02(r, tier, info):
     reps = 1 if tier == "quick" else 3
     for n in lens:
         for _ in range(reps):
-            key = rkey(r)
+            key = gen.key_for(r, n)
             data = rbytes(r, n)
             w = r.choice((64, 128, 256)) if tier == "quick" else None
             for w_ in ((w,) if w else (64, 128, 256)):
@@ -127,17 +127,18 @@ def gen_c05(r, tier, info):
             cases += gen.grid(r, s, fills, r.sample(gen.CHUNK_LENS, 12), force=True, entry="mix", std=std)
     for _ in range(150 if tier == "quick" else 3000):
         s = r.choice(sels)
-        data = rbytes(r, r.choice((0, 1, 31, 32, 33, 63, 64, 65, 100, 129, 200, 200, 256, 300, 511, 512, 1024, 1500, 4097)))
+        data = rbytes(r, r.choice((0, 1, 5, 17, 23, 31, 32, 33, 63, 64, 65, 100, 129, 200, 200, 256, 300, 511, 512, 1024, 1500, 4097)))
         parts = split_chunks(r, data, r.randrange(0, 9))
-        cases.append(gen.streamed(r, s, parts, r.choice((64, 128, 256)), rkey(r), entry="mix", force=True, std=std))
+        cases.append(gen.streamed(r, s, parts, r.choice((64, 128, 256)), gen.key_for(r, len(data)), entry="mix", force=True, std=std))
     # many tiny appends into one packet
     for _ in range(20 if tier == "quick" else 300):
         s = r.choice(sels)
         data = rbytes(r, r.randrange(0, 70))
+        tiny_key = gen.key_for(r, len(data))
         parts = [data[i:i + 1] for i in range(len(data))]
         for _ in range(r.randrange(0, 4)):
             parts.insert(r.randrange(len(parts) + 1), b"")
-        cases.append(gen.streamed(r, s, parts, r.choice((64, 128, 256)), rkey(r), force=True, std=std))
+        cases.append(gen.streamed(r, s, parts, r.choice((64, 128, 256)), tiny_key, force=True, std=std))
     return cases
 
 
@@ -267,6 +268,22 @@ def gen_c08(r, tier, info):
         cases.append(gen.interleave(r, sels, nh=3, force=True))
         s = r.choice(sels)
         cases += gen.grid(r, s, [r.randrange(32)], r.sample(gen.CHUNK_LENS, 3), force=True, entry="mix", std=std)
+    # sub-packet streams with length-tailored carry keys: overflow-checked re-implementations of the length injection
+    for n in range(1, 32):
+        key = gen.carry_key(r, n)
+        data = rbytes(r, n)
+        b = B("c08-carry-key", [f"fill={n}"])
+        for hi, s in enumerate(sels):
+            b.op(f"fnew {hi} {s} {kstr(key)}")
+            b.op(f"append {hi} {hexbytes(data)}")
+            if s not in gen.NO_TRAITS:
+                b.op(f"finish {hi}")
+            b.op(f"clone {hi} {hi + 8}")
+            b.op(f"clone {hi} {hi + 16}")
+            b.op(f"fin {hi} 64")
+            b.op(f"fin {hi + 8} 128")
+            b.op(f"fin {hi + 16} 256")
+        cases.append(b)
     # extreme: all 32 fills x finalize at every width right after restore of an edge-lane checkpoint
     for f in range(32):
         lanes = gen.edge_lanes(r)
